@@ -100,6 +100,17 @@ func stmtEvents(evs []recdrv.Event) []recdrv.Event {
 	return out
 }
 
+// shapeOfSQL: the statement with identifiers and placeholders collapsed, i.e. its clause skeleton.
+func shapeOfSQL(q string) string {
+	var kw []string
+	for _, t := range tokenize(q) {
+		if t.kind == "ident" && strings.ToUpper(t.text) == t.text && len(t.text) > 1 && !colRe.MatchString(t.text) {
+			kw = append(kw, t.text)
+		}
+	}
+	return strings.Join(kw, " ")
+}
+
 type op19 func(db *gorm.DB) (out outcome, desc string)
 
 // compare runs op dry (3 ways) and for real and applies the oracle.
@@ -207,7 +218,7 @@ func compare19(c *core.Ctx, mk func() op19, mkSplit splitOp, what string) {
 		return
 	}
 	if len(realEvents) > 0 {
-		c.Shape(what, strings.Fields(dry.sql)[0], len(dry.vars), len(realEvents))
+		c.Shape(what, strings.Fields(dry.sql)[0], len(dry.vars), len(realEvents), shapeOfSQL(dry.sql))
 		c.Inc("compared_with_real_statement")
 		if c.WantSample() && len(dry.vars) > 2 {
 			c.Sample(map[string]interface{}{"chain": desc, "sql": dry.sql, "vars": renderVars(dry.vars), "driver_events_dry": len(dryEvents), "statements_real": len(realEvents)})
